@@ -141,8 +141,13 @@ class PybindWrapper:
         """
         # Redirect stdout - see pybind docs for why this is a good idea:
         # https://pybind11.readthedocs.io/en/stable/advanced/pycpp/utilities.html#capturing-standard-output-from-ostream
-        ret = ret.replace('self->print',
-                          'py::scoped_ostream_redirect output; self->print')
+        # (the redirect object has to be declared before a `return`)
+        ret = ret.replace(
+            '{return self->print',
+            '{py::scoped_ostream_redirect output; return self->print')
+        ret = ret.replace(
+            '{ self->print',
+            '{ py::scoped_ostream_redirect output; self->print')
 
         # Make __repr__() call .print() internally
         ret += '''{prefix}.def("__repr__",
